@@ -262,7 +262,7 @@ impl C07 {
         let mut classes = Vec::new();
         for c in 0..2u8 {
             let n = if c == 0 { "ed25519" } else { "ed448" };
-            classes.push((cls(leak(format!("{n}/honest")), 2000, 60_000), c, 0));
+            classes.push((cls(leak(format!("{n}/honest")), 4000, 60_000), c, 0));
             classes.push((cls(leak(format!("{n}/mutated")), 1500, 60_000), c, 1));
             classes.push((cls(leak(format!("{n}/torsion")), 800, 40_000), c, 2));
             classes.push((cls(leak(format!("{n}/low_order_key")), 600, 30_000), c, 3));
